@@ -37,18 +37,21 @@ def cases():
     for p in sorted(glob.glob(os.path.join(HERE, 'seeded', '_reverted_fixes', '*.diff'))):
         name = os.path.basename(p)[:-5]
         out.append(('revert-' + name, p, REVERTED.get(name, [])))
+    mprops = {}
+    try:
+        sys.path.insert(0, os.path.join(HERE, 'mutants'))
+        import specs
+        mprops = {s['name']: s['props'] for s in specs.SPECS}
+    except Exception:
+        pass
     for p in sorted(glob.glob(os.path.join(HERE, 'mutants', '*.diff'))):
         name = os.path.basename(p)[:-5]
-        prop = name.split('-')[0]
-        out.append(('mutant-' + name, p, [prop]))
+        out.append(('mutant-' + name, p, mprops.get(name) or [name.split('-')[0]]))
     return out
 
 
-def main():
-    only = []
-    args = sys.argv[1:]
-    if '--only' in args:
-        only = args[args.index('--only') + 1:]
+def worker(args):
+    idx, todo, keep = args
     scratch = tempfile.mkdtemp(prefix='walrus-selftest-')
     repo = os.path.join(scratch, 'repo')
     subprocess.check_call(['rsync', '-a', '--exclude', 'target', '--exclude', '.git', '/repo/', repo + '/'])
@@ -56,34 +59,47 @@ def main():
     subprocess.check_call('git add -A && git -c user.name=x -c user.email=x@x commit -qm base', shell=True, cwd=repo)
     env = dict(os.environ, VERIF_REPO=repo, VERIF_EVIDENCE_DIR=os.path.join(scratch, 'evidence'))
     rows = []
-    bad = 0
     try:
-        for name, patch, props in cases():
-            if only and not any(o in name for o in only):
-                continue
+        for name, patch, props in todo:
             subprocess.check_call(['git', 'checkout', '-q', '--', '.'], cwd=repo)
             r = subprocess.run(['git', 'apply', patch], cwd=repo, capture_output=True, text=True)
             if r.returncode != 0:
-                rows.append((name, '-', 'SKIPPED (patch does not apply to the current tree)'))
+                rows.append((name, '-', 'SKIPPED (patch does not apply to the current tree)', 0))
                 continue
             for prop in props:
                 r = subprocess.run([os.path.join(HERE, 'check'), prop], cwd=HERE, env=env, capture_output=True, text=True)
                 keys = [l.split('key=')[1].strip() for l in r.stdout.splitlines() if 'key=' in l]
                 if r.returncode == 1 and 'VIOLATION' in r.stdout:
-                    rows.append((name, prop, 'DETECTED ' + '; '.join(keys[:2])[:150]))
+                    rows.append((name, prop, 'DETECTED ' + '; '.join(keys[:2])[:150], 0))
                 elif r.returncode == 2:
-                    rows.append((name, prop, 'ANALYSIS-ERROR (exit 2): ' + ' | '.join(l for l in r.stdout.splitlines() if 'ANALYSIS' in l)[:150]))
-                    bad += 1
+                    rows.append((name, prop, 'ANALYSIS-ERROR (exit 2): ' + ' | '.join(l for l in r.stdout.splitlines() if 'ANALYSIS' in l)[:150], 1))
                 else:
-                    rows.append((name, prop, 'MISSED (exit %d)' % r.returncode))
-                    bad += 1
-        subprocess.check_call(['git', 'checkout', '-q', '--', '.'], cwd=repo)
+                    rows.append((name, prop, 'MISSED (exit %d)' % r.returncode, 1))
     finally:
-        if '--keep' not in args:
+        if not keep:
             shutil.rmtree(scratch, ignore_errors=True)
-            # drop the fact bases of the scratch copies
-            for d in glob.glob(os.path.join(HERE, '.cache', 'facts-*')):
-                pass
+    return rows
+
+
+def main():
+    only = []
+    args = sys.argv[1:]
+    if '--only' in args:
+        only = args[args.index('--only') + 1:]
+    jobs = 6
+    if '-j' in args:
+        jobs = int(args[args.index('-j') + 1])
+        only = [o for o in only if o not in ('-j', str(jobs))]
+    todo = [c for c in cases() if not only or any(o in c[0] for o in only)]
+    jobs = max(1, min(jobs, len(todo)))
+    from multiprocessing.pool import ThreadPool
+    chunks = [(k, todo[k::jobs], '--keep' in args) for k in range(jobs)]
+    rows4 = []
+    for rs in ThreadPool(jobs).map(worker, chunks):
+        rows4 += rs
+    rows4.sort()
+    rows = [r[:3] for r in rows4]
+    bad = sum(r[3] for r in rows4)
     w = max(len(r[0]) for r in rows) if rows else 10
     for n, p, s in rows:
         print('%-*s %-4s %s' % (w, n, p, s))
